@@ -7,5 +7,5 @@ From GS Require Import Cluster ClusterLTS ClusterGo.
 Extraction Language OCaml.
 Extraction "m_c18cluster.ml"
   gaccept gaccepted_prefix census settledb zombies clean_okb bound_okb started_not_stopped helpers main_alive
-  g_s g_run s_pc s_live s_stopping
+  obliged g_s g_run g_cx g_rc g_self s_pc s_live s_stopping
   Z.of_N. (* Z.of_N only so that ocaml/util.ml (shared) finds the type z *)
